@@ -341,6 +341,11 @@ func ruleC07(c *Ctx, r *Report) {
 	}
 	splitCalls := callsIn(sf, func(k string, _ *ssa.Call) bool { return k == "(*bufio.Scanner).Split" })
 	r.Check(len(splitCalls) == 0, "C07-R2", sf.Name()+":default-split", c.Pos(sf.Pos()), "default line splitting: an over-long line ends the run through scanner.Err(), it is never truncated or passed through", "custom split function installed: over-long lines may be truncated or passed through")
+	// ---- R4 no state survives a failed line
+	{
+		line := c.pkgReach(c.Fn("RedactMongoLog"), c.Fn("MarshalOrdered"), sf)
+		crossLineStateRule(c, r, line, "C07-R4", "a line that fails part-way (error return, skipped line) can leave it in a state that makes every later line fail or be skipped")
+	}
 	// ---- R3 premise of the recursion bound: the token limit is not raised
 	r.Floor("C07-R3", 1, "scanner token limit")
 	bufCalls := callsIn(sf, func(k string, _ *ssa.Call) bool { return k == "(*bufio.Scanner).Buffer" })
